@@ -165,6 +165,23 @@ HAND = [
    "Name": [("valid", "é"), ("type", 0), ("type", True)]}),
 ]
 
+# required members over the lattice declared / undeclared x additionalProperties absent / true / a schema / false: a name in
+# `required` is required whatever declares (or does not declare) its value
+def _required_lattice():
+    defs, probes = {}, {}
+    I, S = {"type": "integer"}, {"type": "string"}
+    for dn, decl in (("Decl", True), ("Undecl", False)):
+        for an, ap in (("Absent", None), ("True", True), ("Str", S), ("False", False)):
+            if ap is False and not decl: continue           # a required member nothing allows: no instance at all
+            name = "R" + dn + an
+            sc = {"type": "object", "properties": dict({"id": I}, **({"owner": S} if decl else {})), "required": ["id", "owner"]}
+            if ap is not None: sc["additionalProperties"] = ap
+            defs[name] = sc
+            probes[name] = [("valid", {"id": 1, "owner": "o"}), ("required", {"id": 1}), ("required", {"owner": "o"}), ("required", {})]
+            if ap is not False: probes[name].append(("valid", {"id": 1, "owner": "o", "more": "m"}))
+    return ("required-lattice", {"title": "Req", "type": "object", "properties": {"x": _ref("RDeclAbsent")}, "definitions": defs}, probes)
+HAND.append(_required_lattice())
+
 QUICK_FIXTURES = ("deny-list", "arrays-and-tuples", "various-enums", "simple-types", "id-or-name", "more_types",
                   "multiple-instance-types", "extraneous-enum")
 
